@@ -49,6 +49,7 @@ struct Hist {
     /// (op kind, key index) pairs for the fingerprint
     shape: Vec<(u8, u8)>,
     interesting: bool,
+    checksums_seen: usize,
     written_twice: std::collections::HashSet<(String, String)>,
     written: std::collections::HashSet<(String, String)>,
 }
@@ -172,6 +173,12 @@ impl Hist {
                 let who = c.t.below(2);
                 self.trace.push(format!("PutObject {b}/{k} {} bytes meta {meta:?} by {who}", data.len()));
                 let mut rb = self.client(who).put_object().bucket(&b).key(&k).body(ByteStream::from(data.clone()));
+                // a third of the writes carry the CRC-32 of their content, which the store keeps and returns with reads
+                if c.t.chance(85) {
+                    use base64::Engine as _;
+                    rb = rb.checksum_crc32(base64::engine::general_purpose::STANDARD.encode(crc32fast::hash(&data).to_be_bytes()));
+                    self.trace.push("  (with x-amz-checksum-crc32)".to_owned());
+                }
                 for (mk, mv) in &meta {
                     rb = rb.metadata(mk, mv);
                 }
@@ -234,8 +241,9 @@ impl Hist {
                             let etag = o.e_tag().map(str::to_owned);
                             let cl = o.content_length();
                             let cr = o.content_range().map(str::to_owned);
+                            let crc = o.checksum_crc32().map(str::to_owned);
                             let body = o.body.collect().await.map(|b| b.into_bytes().to_vec()).map_err(|e| e.to_string());
-                            Ok((meta, etag, cl, cr, body))
+                            Ok((meta, etag, cl, cr, crc, body))
                         }
                         Err(e) => Err(err_status(&e)),
                     }
@@ -265,8 +273,18 @@ impl Hist {
                             return Err(self.fail(c, "unsatisfiable-range-status", format!("range {range_text:?} on {len} bytes: status {st} {code}")));
                         }
                     }
-                    (Some(o), Ok((meta, etag, cl, cr, body))) => {
+                    (Some(o), Ok((meta, etag, cl, cr, crc, body))) => {
                         let body = body.map_err(|e| self.fail(c, "get-body-error", e))?;
+                        // a checksum that comes with a whole-object read describes the content that is read (a client
+                        // that validates it - the SDKs' default - otherwise cannot read the object at all)
+                        if let (None, Some(x)) = (range, &crc) {
+                            use base64::Engine as _;
+                            let want = base64::engine::general_purpose::STANDARD.encode(crc32fast::hash(&o.content).to_be_bytes());
+                            if *x != want {
+                                return Err(self.fail(c, "stale-checksum", format!("{b}/{k}: x-amz-checksum-crc32 {x} returned with content whose CRC-32 is {want}")));
+                            }
+                            self.checksums_seen += 1;
+                        }
                         let expect = match range {
                             None => Some((0u64, len)),
                             Some(r) => satisfiable(r, len),
@@ -593,7 +611,7 @@ impl Hist {
 fn history(c: &mut Case<'_>) -> CaseResult {
     let max_ops = if c.tier == crate::engine::Tier::Quick { 40 } else { 160 };
     let n_ops = 4 + c.t.below(max_ops);
-    let mut h = Hist { env: FsEnv::new(), model: Model::default(), trace: Vec::new(), shape: Vec::new(), interesting: false, written: Default::default(), written_twice: Default::default() };
+    let mut h = Hist { env: FsEnv::new(), model: Model::default(), trace: Vec::new(), shape: Vec::new(), interesting: false, checksums_seen: 0, written: Default::default(), written_twice: Default::default() };
     for _ in 0..n_ops {
         h.step(c)?;
     }
@@ -609,12 +627,15 @@ fn history(c: &mut Case<'_>) -> CaseResult {
     if !h.written_twice.is_empty() {
         c.label("overwrite");
     }
+    if h.checksums_seen > 0 {
+        c.label("read-with-checksum");
+    }
     c.set_sample(|| json!({"history": h.trace.iter().map(|t| truncate(t, 100)).collect::<Vec<_>>()}));
     Ok(())
 }
 
 pub fn run(r: &mut Runner) {
-    r.rule = "histories of 4..44 (thorough ..164) operations (create/delete bucket, put with/without metadata, get with every Range form, head, delete, batch delete, copy, list v1/v2 with prefix and start-after/marker, multipart create / upload part (non-final parts 5 MiB + d, any order) / complete / abort, by two identities) over 3 buckets and 11 keys (none a directory prefix of another; siblings around '/', one key of 201 bytes), driven through aws-sdk-s3 -> S3Service(SimpleAuth, FileSystem) against an in-memory reference store, compared after every step and in a final full scan. Non-trivial: a key written twice, copied then overwritten, ranged read after a write, or a completed multipart; distinct by the sequence of (operation kind, key index).".into();
+    r.rule = "histories of 4..44 (thorough ..164) operations (create/delete bucket, put with/without metadata and with/without its CRC-32 (a checksum returned with a whole-object read must be that of the content read), get with every Range form, head, delete, batch delete, copy, list v1/v2 with prefix and start-after/marker, multipart create / upload part (non-final parts 5 MiB + d, any order) / complete / abort, by two identities) over 3 buckets and 11 keys (none a directory prefix of another; siblings around '/', one key of 201 bytes), driven through aws-sdk-s3 -> S3Service(SimpleAuth, FileSystem) against an in-memory reference store, compared after every step and in a final full scan. Non-trivial: a key written twice, copied then overwritten, ranged read after a write, or a completed multipart; distinct by the sequence of (operation kind, key index).".into();
     r.assumptions = vec![
         "error codes, deleting a missing key, deleting a non-empty bucket, writes into missing buckets, max-keys / delimiters, parts below 5 MiB and non-consecutive part numbers are don't-care".into(),
         "S3's default metadata directive COPY for CopyObject".into(),
@@ -678,6 +699,23 @@ pub fn run(r: &mut Runner) {
             Ok(())
         })
         .map_err(|e| c.fail("long-key-side-files", e))
+    });
+    r.probe("stale-checksum", |c| {
+        use base64::Engine as _;
+        let env = FsEnv::new();
+        let crc = |d: &[u8]| base64::engine::general_purpose::STANDARD.encode(crc32fast::hash(d).to_be_bytes());
+        block_on(async {
+            env.client_a.create_bucket().bucket("bucket-one").send().await.map_err(|e| format!("{e:?}"))?;
+            env.client_a.put_object().bucket("bucket-one").key("k1").checksum_crc32(crc(b"first")).body(ByteStream::from_static(b"first")).send().await.map_err(|e| format!("{e:?}"))?;
+            env.client_a.put_object().bucket("bucket-one").key("k2").body(ByteStream::from_static(b"second")).send().await.map_err(|e| format!("{e:?}"))?;
+            env.client_a.copy_object().bucket("bucket-one").key("k1").copy_source("bucket-one/k2").send().await.map_err(|e| format!("{e:?}"))?;
+            let o = env.client_a.get_object().bucket("bucket-one").key("k1").send().await.map_err(|e| format!("{:?}", err_status(&e)))?;
+            match o.checksum_crc32() {
+                Some(x) if x != crc(b"second") => Err(format!("after CopyObject onto k1 the read returns x-amz-checksum-crc32 {x}, the CRC-32 of the content is {}", crc(b"second"))),
+                _ => Ok(()),
+            }
+        })
+        .map_err(|e| c.fail("stale-checksum", e))
     });
     r.max_shrink = Some(150);
     r.search("histories", r.scale(3_000, 60_000), 4096, history);
